@@ -22,6 +22,7 @@ import MsVerif.Lemmas.TapTreeDisplay
 import MsVerif.Lemmas.TapTreeBip341
 import MsVerif.Lemmas.TapTreeTranslate
 import MsVerif.Lemmas.TapTreeDecode
+import MsVerif.Lemmas.TapTreeKraft
 
 namespace MsVerif.C15
 open MsVerif MsVerif.Spec MsVerif.Spec.Tree MsVerif.Tap
@@ -206,6 +207,72 @@ theorem ofDepths_inverts_depths (t : Tree α) : Tree.ofDepths (depths t) = some 
 example : Tree.ofDepths [(1, 7), (2, 8), (2, 9)] = some (.node (.leaf 7) (.node (.leaf 8) (.leaf 9))) := by
   decide
 example : Tree.ofDepths [(1, 7), (2, 8)] = none := by decide
+
+/-! ## Every reachable `TapTree` value is the depth list of a tree
+
+`TapTree` has no public constructor from a raw depth list: values arise from `TapTree::leaf`,
+`TapTree::combine` and `TapTreeBuilder` fed with the pre-order walk of a `{…}` expression.  The
+theorems above are stated for `depths t`; `reachable_is_tree` shows that this covers every
+value the API can produce, and the Kraft equality is the arithmetic invariant such lists obey
+(the single pass of `nodes_from_tap_tree` relies on it to terminate with exactly one root). -/
+
+/-- the `TapTree` values the public API can construct -/
+inductive Reachable : TapTree α → Prop where
+  | leaf (s : α) : Reachable (TapTree.leaf s)
+  | combine (l r tt : TapTree α) : Reachable l → Reachable r →
+      TapTree.combine l r = some tt → Reachable tt
+  | build (t : Tree α) (tt : TapTree α) : buildFromOps (opsOf t) = some tt → Reachable tt
+
+/-- every reachable `TapTree` is the depth list of exactly one script tree, of height ≤ 128 -/
+theorem reachable_is_tree (tt : TapTree α) (h : Reachable tt) :
+    ∃ t : Tree α, height t ≤ 128 ∧ tt = depths t ∧ ∀ t', tt = depths t' → t' = t := by
+  have key : ∃ t : Tree α, height t ≤ 128 ∧ tt = depths t := by
+    induction h with
+    | leaf s => exact ⟨Tree.leaf s, by simp [height], rfl⟩
+    | combine l r tt _ _ hc ihl ihr =>
+      obtain ⟨tl, _, rfl⟩ := ihl
+      obtain ⟨tr, _, rfl⟩ := ihr
+      rw [combine_depths] at hc
+      by_cases hh : height (Tree.node tl tr) ≤ 128
+      · rw [if_pos hh] at hc
+        exact ⟨Tree.node tl tr, hh, (Option.some.inj hc).symm⟩
+      · rw [if_neg hh] at hc; cases hc
+    | build t tt hb =>
+      rw [builder_inverse] at hb
+      by_cases hh : height t ≤ 128
+      · rw [if_pos hh] at hb
+        exact ⟨t, hh, (Option.some.inj hb).symm⟩
+      · rw [if_neg hh] at hb; cases hb
+  obtain ⟨t, ht, rfl⟩ := key
+  exact ⟨t, ht, rfl, fun t' e => depths_injective t' t e.symm⟩
+
+/-- Kraft's equality: for every tree and every horizon `H ≥ height t`,
+`Σ_leaves 2^(H - depth) = 2^H` -/
+theorem kraft_equality (t : Tree α) (H : Nat) (h : height t ≤ H) :
+    kraft H (depths t) = 2 ^ H := by
+  have := kraft_depthsFrom t 0 H (by omega)
+  simpa [depths] using this
+
+/-- a tree within the depth limit has at most `2^height` leaves, and at least one -/
+theorem leaves_count_bounds (t : Tree α) :
+    1 ≤ (depths t).length ∧ (depths t).length ≤ 2 ^ height t := by
+  refine ⟨?_, depths_length_le t⟩
+  have := Tree.depthsFrom_ne_nil t 0
+  unfold depths
+  cases h : depthsFrom 0 t with
+  | nil => exact absurd h this
+  | cons _ _ => simp
+
+/-- a tree's depth list is never a proper prefix of another tree's depth list -/
+theorem depths_no_proper_prefix (t₁ t₂ : Tree α) (rest : List (Nat × α))
+    (h : depths t₁ ++ rest = depths t₂) : rest = [] ∧ t₁ = t₂ :=
+  depths_prefix_free t₁ t₂ rest h
+
+/-- the reachable closure is not vacuous: combining a leaf with a built tree is reachable -/
+example : Reachable (α := Nat) [(1, 7), (2, 8), (2, 9)] :=
+  .combine (TapTree.leaf 7) [(1, 8), (1, 9)] _ (.leaf 7)
+    (.build (.node (.leaf 8) (.leaf 9)) _ (by decide)) (by decide)
+example : kraft 3 ([(1, 7), (2, 8), (2, 9)] : List (Nat × Nat)) = 2 ^ 3 := by decide
 
 /-! ## Real hashes: the byte-level BIP341 instance (Spec/Bip341.lean)
 
